@@ -314,7 +314,7 @@ def run(res: Results, idx: Index, tier: str) -> None:
     _rule_d(res, idx)
 
     # ---------------- R-C17e  (range proof ingredients)
-    _rule_e(res, idx, m, dts)
+    _rule_e(res, idx, m, dts, tier)
 
     # positive control: a permissive predicate must be caught by the reference
     res.control("R-C17b", "reference rejects INT32->FLOAT->INT32, FLOAT->FLOAT16->FLOAT, INT64->DOUBLE->INT64, UINT8->INT8->UINT8, DOUBLE->COMPLEX64",
@@ -365,7 +365,7 @@ def _lowbit_control(dts) -> Tuple[bool, str]:
     return ok, "; ".join(notes)
 
 
-def _rule_e(res: Results, idx: Index, m, dts) -> None:
+def _rule_e(res: Results, idx: Index, m, dts, tier: str = "quick") -> None:
     res.rule("R-C17e", "range-proof ingredients: the pass-through operator set only contains value-set preserving ops; the Range closed form bounds every emitted value (bounded box)", floor=8)
     ops = m.consts.get("_INTEGER_VALUE_PRESERVING_OPS")
     if not isinstance(ops, frozenset):
@@ -391,9 +391,14 @@ def _rule_e(res: Results, idx: Index, m, dts) -> None:
     bad = None
     n = 0
     try:
-        for start in range(-7, 8):
-            for limit in range(-7, 8):
-                for delta in range(-4, 5):
+        B, D = (7, 4) if tier != "thorough" else (40, 9)
+        # thorough: also values near the int8 / int16 boundaries, where a one-off bound decides a narrowing fold
+        extra = [] if tier != "thorough" else [-32769, -32768, -129, -128, -127, 126, 127, 128, 255, 256, 32767, 32768]
+        starts = list(range(-B, B + 1)) + extra
+        res.analysed["range_box"] = f"start, limit in [-{B},{B}]" + (" + type boundaries" if extra else "") + f", delta in [-{D},{D}]"
+        for start in starts:
+            for limit in starts:
+                for delta in range(-D, D + 1):
                     n += 1
                     env = {"start": start, "limit": limit, "delta": delta}
                     try:
